@@ -8,6 +8,6 @@ CONSTANTS
   OldDelete = FALSE
   StepGuard = TRUE
   NilGuard = TRUE
-  WithClose = TRUE
+  WithClose = FALSE
   defaultInitValue = 0
 INVARIANTS NoConflict_ingesters NoConflict_cancels NoNilCancel StepNotStuck LockDiscipline
